@@ -1,82 +1,17 @@
-import PsiProofs.Helper.C06_Timeline
+import PsiProofs.Helper.C06_Alt
 /-!
 Helper for C06 (composition): the flow of notifications from the queue's logs to the extractor,
 and the joint invariant of the composed system.
+
+The invariant carries a ghost: `seen`, the notifications already handed to the extractor, in issue
+order (`seen ++ J.pend` is everything the queue ever issued).  Per dictionary key the issued stream
+alternates (`AltM`, Helper/C06_Alt) — proved here from the queue model: a `pop` notifies a trial
+under a key only when no trial with that key is still logged, a `pause(m)` cancels only logged
+trials — and the C05 spec machine of every key follows the outstanding trial of the seen stream.
+From this the extractor history is in C05's `ValidSeq` for **every** run; no hypothesis on keys.
 -/
 namespace Psi.E2E
 open Psi.Queue Psi.Extract
-
-/-! ### FIFO order: a trial's `added` is issued before its `removed` -/
-
-def Ordered : List Note → Prop
-  | [] => True
-  | .add _ :: l => Ordered l
-  | .rem r :: l => Note.add r ∉ l ∧ Ordered l
-
-theorem Ordered_drop (l : List Note) (v : Nat) (h : Ordered l) : Ordered (l.drop v) := by
-  induction l generalizing v with
-  | nil => simpa using h
-  | cons x xs ih =>
-    cases v with
-    | zero => simpa using h
-    | succ v =>
-      simp only [List.drop_succ_cons]
-      cases x with
-      | add i => exact ih v h
-      | rem r => exact ih v h.2
-
-theorem Ordered_append_rems (l : List Note) (rs : List Info) (h : Ordered l) :
-    Ordered (l ++ rs.map Note.rem) := by
-  induction l with
-  | nil =>
-    induction rs with
-    | nil => trivial
-    | cons r rs ih => exact ⟨by simp, ih⟩
-  | cons x xs ih =>
-    cases x with
-    | add i => exact ih h
-    | rem r =>
-      refine ⟨?_, ih h.2⟩
-      intro hm
-      rcases List.mem_append.1 hm with hm | hm
-      · exact h.1 hm
-      · simp at hm
-
-theorem Ordered_append_adds (l : List Note) (is : List Info) (h : Ordered l)
-    (hd : ∀ r, Note.rem r ∈ l → r ∉ is) : Ordered (l ++ is.map Note.add) := by
-  induction l with
-  | nil =>
-    induction is with
-    | nil => trivial
-    | cons i is ih => exact ih (by simp)
-  | cons x xs ih =>
-    cases x with
-    | add i => exact ih h (fun r hr => hd r (List.mem_cons_of_mem _ hr))
-    | rem r =>
-      refine ⟨?_, ih h.2 (fun r' hr => hd r' (List.mem_cons_of_mem _ hr))⟩
-      intro hm
-      rcases List.mem_append.1 hm with hm | hm
-      · exact h.1 hm
-      · simp only [List.mem_map, Note.add.injEq] at hm
-        obtain ⟨a, ha, rfl⟩ := hm
-        exact hd a List.mem_cons_self ha
-
-theorem Ordered_split (x y : List Note) (h : Ordered (x ++ y)) (r : Info) (hr : Note.rem r ∈ x) :
-    Note.add r ∉ y := by
-  induction x with
-  | nil => cases hr
-  | cons a xs ih =>
-    cases a with
-    | add i =>
-      rcases List.mem_cons.1 hr with hr | hr
-      · cases hr
-      · exact ih h hr
-    | rem r' =>
-      rcases List.mem_cons.1 hr with hr | hr
-      · cases hr
-        intro hy
-        exact h.1 (List.mem_append_right _ hy)
-      · exact ih h.2 hr
 
 theorem filterMap_adds (c : Cfg) (is : List Info) :
     (is.map Note.add).filterMap (Note.req? c) = is.map (reqOf c) := by
@@ -90,50 +25,26 @@ theorem filterMap_rems (c : Cfg) (rs : List Info) :
   | nil => rfl
   | cons i is ih => simp [Note.req?]
 
-/-! ### where a request / its removal became visible -/
-
-/-- the request became visible in some call -/
-def ReqSeen (eops : List (Op Cell)) (rq : Request) : Prop :=
-  ∃ pre0 o0 rest, eops = pre0 ++ o0 :: rest ∧ rq ∈ o0.reqs
-
-/-- the request became visible in the first call of `seg ++ [opi]`, its removal in call `opi`,
-before the stream reached its last sample: the hypotheses of `removed_never_delivered` -/
-def Seen (eops : List (Op Cell)) (rq : Request) : Prop :=
-  ∃ pre0 seg opi post o0 tl, eops = pre0 ++ (seg ++ opi :: post) ∧ seg ++ [opi] = o0 :: tl ∧
-    rq ∈ o0.reqs ∧ rq.key ∈ opi.rems ∧ (seg = [] ∨ total pre0 + total seg < rq.s.toNat + rq.len)
-
-theorem ReqSeen_of_mem {eops : List (Op Cell)} {rq : Request} (h : rq ∈ allReqs eops) : ReqSeen eops rq := by
-  obtain ⟨o0, ho, hr⟩ := List.mem_flatMap.1 h
-  obtain ⟨pre0, rest, rfl⟩ := List.append_of_mem ho
-  exact ⟨pre0, o0, rest, rfl, hr⟩
-
-theorem Seen_snoc {eops : List (Op Cell)} {rq : Request} (op : Op Cell) (h : Seen eops rq) :
-    Seen (eops ++ [op]) rq := by
-  obtain ⟨pre0, seg, opi, post, o0, tl, he, hs, h1, h2, h3⟩ := h
-  exact ⟨pre0, seg, opi, post ++ [op], o0, tl, by rw [he]; simp, hs, h1, h2, h3⟩
-
-theorem Seen_now {eops : List (Op Cell)} {rq : Request} (op : Op Cell) (h1 : rq ∈ op.reqs)
-    (h2 : rq.key ∈ op.rems) : Seen (eops ++ [op]) rq :=
-  ⟨eops, [], op, [], op, [], by simp, rfl, h1, h2, Or.inl rfl⟩
-
-theorem Seen_later {eops : List (Op Cell)} {rq : Request} (op : Op Cell) (h1 : ReqSeen eops rq)
-    (h2 : rq.key ∈ op.rems) (h3 : total eops < rq.s.toNat + rq.len) : Seen (eops ++ [op]) rq := by
-  obtain ⟨pre0, o0, rest, he, hr⟩ := h1
-  refine ⟨pre0, o0 :: rest, op, [], o0, rest ++ [op], by rw [he]; simp, by simp, hr, h2, Or.inr ?_⟩
-  rw [he, total_append] at h3
-  exact h3
-
 /-! ### the joint invariant -/
 
 structure NInv (c : Cfg) (J : JState) : Prop where
   reqs : allReqs J.eops ++ J.pend.filterMap (Note.req? c) = J.q.added.map (reqOf c)
   addsPend : ∀ i, Note.add i ∈ J.pend → i ∈ J.q.added
-  remsSeen : ∀ o ∈ J.eops, ∀ κ ∈ o.rems, ∃ r ∈ J.q.added, r.uid ∈ J.q.removed ∧ κ = (reqOf c r).key
   remsPend : ∀ r, Note.rem r ∈ J.pend →
     r ∈ J.q.added ∧ r.uid ∈ J.q.removed ∧ J.acq < (reqOf c r).s.toNat + c.L
-  ordered : Ordered J.pend
-  canc : ∀ r ∈ J.q.added, r.uid ∈ J.q.removed → Note.rem r ∈ J.pend ∨ Seen J.eops (reqOf c r)
-  valid : Valid c.B c.L J.eops
+  valid : ValidSeq c.B c.L J.eops
+
+/-- the ghost part: `seen` = the notifications handed to the extractor so far, in issue order -/
+structure GInv (c : Cfg) (J : JState) (seen : List Note) : Prop where
+  adds : (seen ++ J.pend).filterMap Note.add? = J.q.added
+  seenReqs : allReqs J.eops = seen.filterMap (Note.req? c)
+  rems : ∀ r, Note.rem r ∈ seen ++ J.pend → r.uid ∈ J.q.removed
+  alt : ∀ κ, AltM none (onKey c κ (seen ++ J.pend))
+  last : ∀ κ i, altEnd none (onKey c κ (seen ++ J.pend)) = some i → i.uid ∉ J.q.removed
+  opn : ∀ κ, openAfter κ J.eops =
+    ((altEnd none (onKey c κ seen)).filter (fun i => !doneAt (reqOf c i) J.acq)).map (reqOf c)
+  acc : ∀ κ, (specReqs κ 0 none J.eops).filterMap id =
+    (((altEnd none (onKey c κ seen)).filter (fun i => doneAt (reqOf c i) J.acq)).map (reqOf c)).toList
 
 structure JInv (c : Cfg) (J : JState) : Prop where
   q : QInv c.K0 J.q J.tl
@@ -141,6 +52,7 @@ structure JInv (c : Cfg) (J : JState) : Prop where
   stream : streamOf J.eops = J.tl.take J.acq
   tot : total J.eops = J.acq
   n : NInv c J
+  g : ∃ seen, GInv c J seen
 
 /-- what a queue must look like before anything was played -/
 structure Start (q0 : QState) : Prop where
@@ -152,20 +64,22 @@ structure Start (q0 : QState) : Prop where
   samples : q0.samples = 0
 
 theorem JInv_init (c : Cfg) (q0 : QState) (h : Start q0) : JInv c (JState.init c q0) := by
-  have hv : Valid c.B c.L ([] : List (Op Cell)) := trivial
+  have hv : ValidSeq c.B c.L ([] : List (Op Cell)) := trivial
   have hq : (JState.init c q0).q = q0 := rfl
   have htl : (JState.init c q0).tl = zeros c.K0 := rfl
   refine ⟨⟨by rw [hq]; exact ⟨h.data, by simp [h.source]⟩,
       by rw [hq]; simp [Once, h.generated, h.added, h.removed], ?_, ?_, ?_,
       by simp [JState.init, h.generated], by simp [JState.init, h.generated], ?_⟩,
-    Nat.zero_le _, by simp [JState.init, streamOf], by simp [JState.init, total], ?_⟩
+    Nat.zero_le _, by simp [JState.init, streamOf], by simp [JState.init, total], ?_, ?_⟩
   · simp [JState.init, zeros, h.samples]
   · intro _ src hs; simp [JState.init, h.source] at hs
   · simp [JState.init, h.added]
   · simp only [JState.init, h.generated]; exact Emb_nil _ _ _
-  · refine ⟨by simp [JState.init, allReqs, h.added], by simp [JState.init], by simp [JState.init],
-      by simp [JState.init], trivial, ?_, hv⟩
-    intro r hr; simp [JState.init, h.added] at hr
+  · exact ⟨by simp [JState.init, allReqs, h.added], by simp [JState.init], by simp [JState.init], hv⟩
+  · refine ⟨[], by simp [JState.init, h.added], by simp [JState.init, allReqs], by simp [JState.init],
+      by simp [JState.init, onKey, AltM], by simp [JState.init, onKey, altEnd], ?_, ?_⟩
+    · intro κ; simp [JState.init, onKey, altEnd, openAfter, openK]
+    · intro κ; simp [JState.init, onKey, altEnd, specReqs]
 
 theorem nodup_of_map {α β} (f : α → β) (l : List α) (h : (l.map f).Nodup) :
     l.Nodup ∧ ∀ a ∈ l, ∀ b ∈ l, f a = f b → a = b := by
@@ -182,6 +96,11 @@ theorem nodup_of_map {α β} (f : α → β) (l : List α) (h : (l.map f).Nodup)
     · rw [hb] at he; exact absurd (List.mem_map.2 ⟨a, ha, he⟩) h.1
     · exact i2 a ha b hb he
 
+theorem nodup_reverse' {β} {l : List β} (h : l.Nodup) : l.reverse.Nodup := by
+  unfold List.Nodup at *
+  rw [List.pairwise_reverse]
+  exact h.imp (fun h => h.symm)
+
 theorem uid_exists {added : List Info} (hu : added.map (·.uid) = List.range added.length) {u : Nat}
     (h : u < added.length) : ∃ r ∈ added, r.uid = u := by
   have : u ∈ added.map (·.uid) := by rw [hu]; exact List.mem_range.2 h
@@ -193,10 +112,32 @@ theorem uid_inj {added : List Info} (hu : added.map (·.uid) = List.range added.
   have hn : (added.map (·.uid)).Nodup := by rw [hu]; exact List.nodup_range
   exact (nodup_of_map _ _ hn).2 a ha b hb h
 
+/-- a notified trial that was not cancelled is still logged -/
+theorem logged_of_not_removed {K0 : Int} {q : QState} {tl : List Cell} (qi : QInv K0 q tl) {i : Info}
+    (hi : i ∈ q.added) (hu : i.uid ∉ q.removed) : i ∈ q.generated := by
+  have hlt : i.uid < q.added.length := by
+    have : i.uid ∈ q.added.map (·.uid) := List.mem_map.2 ⟨i, hi, rfl⟩
+    rw [qi.uid] at this
+    exact List.mem_range.1 this
+  rcases ((Once_nodup qi.once).2.2.2 i.uid).1 hlt with h | h
+  · obtain ⟨g, hg, he⟩ := List.mem_map.1 h
+    have : g = i := uid_inj qi.uid (qi.emb.gensub g hg) hi he
+    rw [← this]; exact hg
+  · exact absurd h hu
+
+/-- the notifications about one key that an issued stream holds name notified trials -/
+theorem outstanding_added {c : Cfg} {J : JState} {seen : List Note} (g : GInv c J seen) {κ : Nat}
+    {l : List Note} (hl : ∀ n ∈ l, n ∈ seen ++ J.pend) {i : Info}
+    (h : altEnd none (onKey c κ l) = some i) : i ∈ J.q.added ∧ (reqOf c i).key = κ ∧ Note.add i ∈ l := by
+  rcases altEnd_mem h with h1 | h1
+  · cases h1
+  · obtain ⟨h2, h3⟩ := mem_onKey.1 h1
+    exact ⟨by rw [← g.adds]; exact mem_add?.2 (hl _ h2), h3, h2⟩
+
 /-! ### queue events -/
 
-theorem JInv_pop (c : Cfg) {J : JState} {n : Nat} {out : List Cell} {q' : QState} (inv : JInv c J)
-    (h : popBuffer n J.q = .ok (out, q')) :
+theorem JInv_pop (c : Cfg) (henc : EncInj c) {J : JState} {n : Nat} {out : List Cell} {q' : QState}
+    (inv : JInv c J) (h : popBuffer n J.q = .ok (out, q')) :
     JInv c { J with q := q', tl := J.tl ++ out,
                     pend := J.pend ++ (q'.added.drop J.q.added.length).map Note.add } ∧
       J.q.added <+: q'.added := by
@@ -207,42 +148,82 @@ theorem JInv_pop (c : Cfg) {J : JState} {n : Nat} {out : List Cell} {q' : QState
     have : (q'.added.map (·.uid)).Nodup := by rw [qi.uid]; exact List.nodup_range
     rw [← hadd]; exact (nodup_of_map _ _ this).1
   have hsub : ∀ i ∈ J.q.added, i ∈ q'.added := fun i hi => by rw [hadd]; exact List.mem_append_left _ hi
-  refine ⟨⟨qi, ?_, ?_, inv.tot, ?_⟩, hpre⟩
+  have hnew : ∀ i ∈ new, i ∈ q'.added := fun i hi => by rw [hadd]; exact List.mem_append_right _ hi
+  -- the new trials were not cancelled, hence are logged
+  have hnewrem : ∀ i ∈ new, i.uid ∉ J.q.removed := by
+    intro i hi hu
+    have hlt : i.uid < J.q.added.length := ((Once_nodup inv.q.once).2.2.2 i.uid).2 (Or.inr hu)
+    obtain ⟨r0, hr0, he⟩ := uid_exists inv.q.uid hlt
+    have : r0 = i := uid_inj qi.uid (hsub r0 hr0) (hnew i hi) he
+    subst this
+    exact (List.nodup_append.1 hnd).2.2 r0 hr0 r0 hi rfl
+  have hlogged : ∀ i ∈ q'.added, i.uid ∉ J.q.removed → i ∈ q'.generated :=
+    fun i hi hu => logged_of_not_removed qi hi (by rw [hrem]; exact hu)
+  obtain ⟨seen, g⟩ := inv.g
+  refine ⟨⟨qi, ?_, ?_, inv.tot, ?_, ?_⟩, hpre⟩
   · simp only [List.length_append]; have := inv.acq; omega
   · simp only; rw [List.take_append_of_le_length inv.acq]; exact inv.stream
-  · refine ⟨?_, ?_, ?_, ?_, ?_, ?_, inv.n.valid⟩
+  · refine ⟨?_, ?_, ?_, inv.n.valid⟩
     · simp only [List.filterMap_append, filterMap_adds, ← List.append_assoc, inv.n.reqs, hadd, List.map_append]
     · intro i hi
       rcases List.mem_append.1 hi with hi | hi
       · exact hsub i (inv.n.addsPend i hi)
       · simp only [List.mem_map, Note.add.injEq] at hi
         obtain ⟨a, ha, rfl⟩ := hi
-        rw [hadd]; exact List.mem_append_right _ ha
-    · intro o ho κ hκ
-      obtain ⟨r, hr, hu, hk⟩ := inv.n.remsSeen o ho κ hκ
-      exact ⟨r, hsub r hr, by rw [hrem]; exact hu, hk⟩
+        exact hnew a ha
     · intro r hr
       rcases List.mem_append.1 hr with hr | hr
       · obtain ⟨a, b, d⟩ := inv.n.remsPend r hr
         exact ⟨hsub r a, by rw [hrem]; exact b, d⟩
       · simp at hr
-    · apply Ordered_append_adds _ _ inv.n.ordered
-      intro r hr hn
-      have := (inv.n.remsPend r hr).1
-      exact (List.nodup_append.1 hnd).2.2 r this r hn rfl
-    · intro r hr hu
-      simp only [hrem] at hu
-      have hlt : r.uid < J.q.added.length :=
-        ((Once_nodup inv.q.once).2.2.2 r.uid).2 (Or.inr hu)
-      obtain ⟨r0, hr0, he⟩ := uid_exists inv.q.uid hlt
-      have : r0 = r := uid_inj qi.uid (hsub r0 hr0) hr he
-      subst this
-      rcases inv.n.canc r0 hr0 hu with h1 | h1
-      · exact Or.inl (List.mem_append_left _ h1)
-      · exact Or.inr h1
+  · -- the ghost: the new `added` notifications keep every key alternating
+    have hcase : ∀ κ, onKey c κ (new.map Note.add) = [] ∨
+        ∃ i ∈ new, (reqOf c i).key = κ ∧ onKey c κ (new.map Note.add) = [Note.add i] :=
+      fun κ => onKey_le_one c henc κ new Note.add (fun _ => rfl) (List.nodup_append.1 hnd).2.1
+        (fun a ha b hb he => sorted_inj qi.sorted (hlogged a (hnew a ha) (hnewrem a ha))
+          (hlogged b (hnew b hb) (hnewrem b hb)) he)
+    have hfree : ∀ κ i', i' ∈ new → (reqOf c i').key = κ →
+        altEnd none (onKey c κ (seen ++ J.pend)) = none := by
+      intro κ i' hi' hk'
+      cases ho : altEnd none (onKey c κ (seen ++ J.pend)) with
+      | none => rfl
+      | some i =>
+        exfalso
+        obtain ⟨h1, h2, _⟩ := outstanding_added g (fun _ hn => hn) ho
+        have hg1 := hlogged i (hsub i h1) (g.last κ i ho)
+        have hg2 := hlogged i' (hnew i' hi') (hnewrem i' hi')
+        have hk : i.k = i'.k := (henc _ _ _ _ (by
+          have : (reqOf c i).key = (reqOf c i').key := by rw [h2, hk']
+          exact this)).1
+        have : i = i' := sorted_inj qi.sorted hg1 hg2 hk
+        subst this
+        exact (List.nodup_append.1 hnd).2.2 i h1 i hi' rfl
+    refine ⟨seen, ?_, g.seenReqs, ?_, ?_, ?_, g.opn, g.acc⟩
+    · simp only [← List.append_assoc, List.filterMap_append, filterMap_add?_adds, g.adds, hadd]
+    · intro r hr
+      simp only [← List.append_assoc] at hr
+      rcases List.mem_append.1 hr with hr | hr
+      · rw [hrem]; exact g.rems r hr
+      · simp at hr
+    · intro κ
+      simp only [← List.append_assoc]
+      rw [onKey_append, AltM_append]
+      refine ⟨g.alt κ, ?_⟩
+      rcases hcase κ with h0 | ⟨i', hi', hk', h1⟩
+      · rw [h0]; trivial
+      · rw [h1, hfree κ i' hi' hk']; trivial
+    · intro κ i hi
+      simp only [← List.append_assoc] at hi
+      rw [onKey_append, altEnd_append] at hi
+      rw [hrem]
+      rcases hcase κ with h0 | ⟨i', hi', hk', h1⟩
+      · rw [h0] at hi; exact g.last κ i hi
+      · rw [h1] at hi
+        simp only [altEnd, Option.some.injEq] at hi
+        rw [← hi]; exact hnewrem i' hi'
 
-theorem JInv_pause_some (c : Cfg) {J : JState} (m : Int) (inv : JInv c J) (hm : m ≤ J.q.samples)
-    (hacq : (J.acq : Int) ≤ (c.K0 : Int) + m)
+theorem JInv_pause_some (c : Cfg) (henc : EncInj c) {J : JState} (m : Int) (inv : JInv c J)
+    (hm : m ≤ J.q.samples) (hacq : (J.acq : Int) ≤ (c.K0 : Int) + m)
     (hside : ∀ i ∈ J.q.added, (i.len : Int) ≤ i.dur ∧ i.dur + (c.P : Int) ≤ (c.L : Int)) :
     JInv c { J with q := (pause (some m) J.q).1, tl := J.tl.take ((c.K0 : Int) + m).toNat,
                     pend := J.pend ++ ((J.q.generated.reverse.filter (endsAfter m)).map Note.rem) } ∧
@@ -250,58 +231,102 @@ theorem JInv_pause_some (c : Cfg) {J : JState} (m : Int) (inv : JInv c J) (hm : 
   obtain ⟨ha, hg, hr, hs, hd, hp, hsm⟩ := pause_some_fields m J.q hm
   have qi := QInv_pause_some inv.q m hm (by omega) (fun i hi => (hside i hi).1)
   have hlen := inv.q.len
-  refine ⟨⟨qi, ?_, ?_, inv.tot, ?_⟩, ha⟩
+  have hmemrem : ∀ r, r ∈ J.q.generated.reverse.filter (endsAfter m) →
+      r ∈ J.q.generated ∧ r ∈ J.q.added ∧ r.k + r.dur > m := by
+    intro r hr
+    simp only [List.mem_filter, List.mem_reverse, endsAfter, decide_eq_true_eq] at hr
+    exact ⟨hr.1, inv.q.emb.gensub r hr.1, hr.2⟩
+  obtain ⟨seen, g⟩ := inv.g
+  refine ⟨⟨qi, ?_, ?_, inv.tot, ?_, ?_⟩, ha⟩
   · simp only [List.length_take]; have := inv.acq; omega
   · simp only; rw [List.take_take, Nat.min_eq_left (by omega)]; exact inv.stream
-  · have hmemrem : ∀ r, r ∈ J.q.generated.reverse.filter (endsAfter m) →
-        r ∈ J.q.added ∧ r.k + r.dur > m := by
-      intro r hr
-      simp only [List.mem_filter, List.mem_reverse, endsAfter, decide_eq_true_eq] at hr
-      exact ⟨inv.q.emb.gensub r hr.1, hr.2⟩
-    refine ⟨?_, ?_, ?_, ?_, Ordered_append_rems _ _ inv.n.ordered, ?_, inv.n.valid⟩
+  · refine ⟨?_, ?_, ?_, inv.n.valid⟩
     · simp only [List.filterMap_append, filterMap_rems, List.append_nil, ha]; exact inv.n.reqs
     · intro i hi
       rcases List.mem_append.1 hi with hi | hi
       · rw [ha]; exact inv.n.addsPend i hi
       · simp at hi
-    · intro o ho κ hκ
-      obtain ⟨r, hr', hu, hk⟩ := inv.n.remsSeen o ho κ hκ
-      exact ⟨r, by rw [ha]; exact hr', by rw [hr]; exact List.mem_append_left _ hu, hk⟩
     · intro r hr'
       rcases List.mem_append.1 hr' with h1 | h1
       · obtain ⟨a, b, d⟩ := inv.n.remsPend r h1
         exact ⟨by rw [ha]; exact a, by rw [hr]; exact List.mem_append_left _ b, d⟩
       · simp only [List.mem_map, Note.rem.injEq] at h1
         obtain ⟨a, ha', rfl⟩ := h1
-        obtain ⟨h2, h3⟩ := hmemrem a ha'
+        obtain ⟨_, h2, h3⟩ := hmemrem a ha'
         refine ⟨by rw [ha]; exact h2, ?_, ?_⟩
         · rw [hr]; exact List.mem_append_right _ (List.mem_map.2 ⟨a, ha', rfl⟩)
         · have := (hside a h2).2
           simp only [reqOf]
           omega
-    · intro r hr' hu
-      rw [ha] at hr'
-      rw [hr] at hu
-      rcases List.mem_append.1 hu with hu | hu
-      · rcases inv.n.canc r hr' hu with h1 | h1
-        · exact Or.inl (List.mem_append_left _ h1)
-        · exact Or.inr h1
-      · obtain ⟨r', hr2, he⟩ := List.mem_map.1 hu
-        have : r' = r := uid_inj inv.q.uid (hmemrem r' hr2).1 hr' he
-        subst this
-        exact Or.inl (List.mem_append_right _ (List.mem_map.2 ⟨r', hr2, rfl⟩))
+  · -- the ghost: every `removed` notification names the outstanding trial of its key
+    generalize hR : J.q.generated.reverse.filter (endsAfter m) = R at hmemrem hr ⊢
+    have hgn : J.q.generated.Nodup := (nodup_of_map _ _ (Once_nodup inv.q.once).2.1).1
+    have hRn : R.Nodup := by rw [← hR]; exact (nodup_reverse' hgn).sublist List.filter_sublist
+    have hcase : ∀ κ, onKey c κ (R.map Note.rem) = [] ∨
+        ∃ j ∈ R, (reqOf c j).key = κ ∧ onKey c κ (R.map Note.rem) = [Note.rem j] :=
+      fun κ => onKey_le_one c henc κ R Note.rem (fun _ => rfl) hRn
+        (fun a ha b hb he => sorted_inj inv.q.sorted (hmemrem a ha).1 (hmemrem b hb).1 he)
+    have hout : ∀ κ j, j ∈ R → (reqOf c j).key = κ →
+        altEnd none (onKey c κ (seen ++ J.pend)) = some j := by
+      intro κ j hj hk
+      obtain ⟨hjg, hja, _⟩ := hmemrem j hj
+      have h1 : Note.add j ∈ onKey c κ (seen ++ J.pend) :=
+        mem_onKey.2 ⟨mem_add?.1 (by rw [g.adds]; exact hja), hk⟩
+      rcases AltM_add_mem (g.alt κ) h1 with h2 | h2
+      · exfalso
+        have := g.rems j (mem_onKey.1 h2).1
+        exact (Once_nodup inv.q.once).2.2.1 _ this (List.mem_map.2 ⟨j, hjg, rfl⟩)
+      · exact h2
+    refine ⟨seen, ?_, g.seenReqs, ?_, ?_, ?_, g.opn, g.acc⟩
+    · rw [← List.append_assoc, List.filterMap_append, filterMap_add?_rems, List.append_nil, ha]
+      exact g.adds
+    · intro r hr'
+      simp only [← List.append_assoc] at hr'
+      rw [hr]
+      rcases List.mem_append.1 hr' with h1 | h1
+      · exact List.mem_append_left _ (g.rems r h1)
+      · simp only [List.mem_map, Note.rem.injEq] at h1
+        obtain ⟨a, ha', rfl⟩ := h1
+        exact List.mem_append_right _ (List.mem_map.2 ⟨a, ha', rfl⟩)
+    · intro κ
+      simp only [← List.append_assoc]
+      rw [onKey_append, AltM_append]
+      refine ⟨g.alt κ, ?_⟩
+      rcases hcase κ with h0 | ⟨j, hj, hk, h1⟩
+      · rw [h0]; trivial
+      · rw [h1, hout κ j hj hk]; exact ⟨rfl, trivial⟩
+    · intro κ i hi
+      simp only [← List.append_assoc] at hi
+      rw [onKey_append, altEnd_append] at hi
+      rcases hcase κ with h0 | ⟨j, hj, hk, h1⟩
+      · rw [h0] at hi
+        simp only [altEnd] at hi
+        rw [hr]
+        intro hu
+        rcases List.mem_append.1 hu with hu | hu
+        · exact g.last κ i hi hu
+        · obtain ⟨j, hj, he⟩ := List.mem_map.1 hu
+          obtain ⟨h1, h2, _⟩ := outstanding_added g (fun _ hn => hn) hi
+          have : j = i := uid_inj inv.q.uid (hmemrem j hj).2.1 h1 he
+          subst this
+          have hmem : Note.rem j ∈ onKey c κ (R.map Note.rem) :=
+            mem_onKey.2 ⟨List.mem_map.2 ⟨j, hj, rfl⟩, h2⟩
+          rw [h0] at hmem; cases hmem
+      · rw [h1] at hi; simp [altEnd] at hi
 
 /-- a queue event that touches neither the logs nor what was acquired -/
 theorem JInv_quiet (c : Cfg) {J : JState} {q' : QState} {tl' : List Cell} (inv : JInv c J)
     (qi : QInv c.K0 q' tl') (ha : q'.added = J.q.added) (hr : q'.removed = J.q.removed)
     (htl : ∃ z, tl' = J.tl ++ zeros z) : JInv c { J with q := q', tl := tl' } := by
   obtain ⟨z, rfl⟩ := htl
-  refine ⟨qi, ?_, ?_, inv.tot, ?_⟩
+  obtain ⟨seen, g⟩ := inv.g
+  refine ⟨qi, ?_, ?_, inv.tot, ?_, ?_⟩
   · simp only [List.length_append]; have := inv.acq; omega
   · simp only; rw [List.take_append_of_le_length inv.acq]; exact inv.stream
   · exact ⟨by simpa [ha] using inv.n.reqs, by simpa [ha] using inv.n.addsPend,
-      by simpa [ha, hr] using inv.n.remsSeen, by simpa [ha, hr] using inv.n.remsPend, inv.n.ordered,
-      by simpa [ha, hr] using inv.n.canc, inv.n.valid⟩
+      by simpa [ha, hr] using inv.n.remsPend, inv.n.valid⟩
+  · exact ⟨seen, by simpa [ha] using g.adds, g.seenReqs, by simpa [hr] using g.rems, g.alt,
+      by simpa [hr] using g.last, g.opn, g.acc⟩
 
 /-! ### an acquisition call -/
 
@@ -311,91 +336,79 @@ theorem JInv_acq (c : Cfg) {J : JState} (n vis : Nat) (op : Op Cell) (inv : JInv
     (hrems : op.rems = (J.pend.take vis).filterMap (Note.rem? c))
     (hn : J.acq + n ≤ J.tl.length)
     (hvis : ∀ r ∈ op.reqs, ((lookbackStart c.B J.eops : Nat) : Int) ≤ r.s)
-    (hlate : ∀ r, Note.rem r ∈ J.pend.drop vis → J.acq + n < (reqOf c r).s.toNat + c.L)
-    (hkeys : ((J.q.added.map (reqOf c)).map (·.key)).Nodup) :
+    (hlate : ∀ r, Note.rem r ∈ J.pend.drop vis → J.acq + n < (reqOf c r).s.toNat + c.L) :
     JInv c { J with acq := J.acq + n, pend := J.pend.drop vis, eops := J.eops ++ [op] } := by
   have hpend : J.pend = J.pend.take vis ++ J.pend.drop vis := (List.take_append_drop vis J.pend).symm
   have hreqsplit : allReqs J.eops ++ (op.reqs ++ (J.pend.drop vis).filterMap (Note.req? c)) =
       J.q.added.map (reqOf c) := by
     rw [hreqs, ← List.filterMap_append, ← hpend]; exact inv.n.reqs
-  have hinj : ∀ a ∈ J.q.added, ∀ b ∈ J.q.added, reqOf c a = reqOf c b → a = b := by
-    intro a ha b hb he
-    have h2 := (nodup_of_map _ _ hkeys).2 (reqOf c a) (List.mem_map.2 ⟨a, ha, rfl⟩) (reqOf c b)
-      (List.mem_map.2 ⟨b, hb, rfl⟩) (by rw [he])
-    exact (nodup_of_map _ _ (nodup_of_map _ _ hkeys).1).2 a ha b hb h2
-  refine ⟨inv.q, hn, ?_, ?_, ?_⟩
+  have hlen : op.chunk.length = n := by
+    rw [hchunk]; simp only [List.length_take, List.length_drop]; omega
+  obtain ⟨seen, g⟩ := inv.g
+  have hissued : (seen ++ J.pend.take vis) ++ J.pend.drop vis = seen ++ J.pend := by
+    rw [List.append_assoc, ← hpend]
+  -- one key: the batch of this call
+  have hkey := fun κ => acq_key c κ (altEnd none (onKey c κ seen)) (onKey c κ (J.pend.take vis)) op J.acq
+    (by
+      have := g.alt κ
+      rw [← hissued, onKey_append, onKey_append, AltM_append, AltM_append] at this
+      exact this.1.2)
+    (by rw [addsK, hreqs]; exact onKey_reqs c κ _)
+    (by rw [hrems]; exact onKey_rems c κ _)
+    (by
+      intro i ho hne
+      have halt := g.alt κ
+      rw [← hissued, onKey_append, onKey_append, AltM_append, AltM_append, ho] at halt
+      obtain ⟨l', hl, _⟩ := AltM_head halt.1.2 hne
+      have hmem : Note.rem i ∈ onKey c κ (J.pend.take vis) := by rw [hl]; exact List.mem_cons_self
+      have := (inv.n.remsPend i (List.mem_of_mem_take (mem_onKey.1 hmem).1)).2.2
+      simp only [doneAt, decide_eq_false_iff_not]
+      have hL : (reqOf c i).len = c.L := rfl
+      omega)
+  refine ⟨inv.q, hn, ?_, ?_, ?_, ?_⟩
   · simp only [streamOf, List.map_append, List.flatten_append, List.map_cons, List.map_nil,
       List.flatten_cons, List.flatten_nil, List.append_nil]
     have := inv.stream
     simp only [streamOf] at this
     rw [this, hchunk, List.take_add]
-  · rw [total_append, total_single, inv.tot, hchunk]
-    simp only [List.length_take, List.length_drop]
-    omega
-  · refine ⟨?_, ?_, ?_, ?_, Ordered_drop _ _ inv.n.ordered, ?_, ?_⟩
+  · rw [total_append, total_single, inv.tot, hlen]
+  · refine ⟨?_, ?_, ?_, ?_⟩
     · simp only [allReqs_append]
       have : allReqs [op] = op.reqs := by simp [allReqs]
       rw [this, List.append_assoc]; exact hreqsplit
     · intro i hi; exact inv.n.addsPend i (List.mem_of_mem_drop hi)
-    · intro o ho κ hκ
-      rcases List.mem_append.1 ho with ho | ho
-      · exact inv.n.remsSeen o ho κ hκ
-      · simp only [List.mem_singleton] at ho; subst ho
-        rw [hrems] at hκ
-        obtain ⟨nt, hnt, he⟩ := List.mem_filterMap.1 hκ
-        cases nt with
-        | add i => simp [Note.rem?] at he
-        | rem r =>
-          simp only [Note.rem?, Option.some.injEq] at he
-          obtain ⟨a, b, _⟩ := inv.n.remsPend r (List.mem_of_mem_take hnt)
-          exact ⟨r, a, b, he.symm⟩
     · intro r hr
       obtain ⟨a, b, _⟩ := inv.n.remsPend r (List.mem_of_mem_drop hr)
       exact ⟨a, b, hlate r hr⟩
-    · intro r hr hu
-      rcases inv.n.canc r hr hu with h1 | h1
-      · rw [hpend] at h1
-        rcases List.mem_append.1 h1 with h1 | h1
-        · right
-          have hkey : (reqOf c r).key ∈ op.rems := by
-            rw [hrems]; exact List.mem_filterMap.2 ⟨Note.rem r, h1, rfl⟩
-          have hmem : reqOf c r ∈ allReqs J.eops ++ J.pend.filterMap (Note.req? c) := by
-            rw [inv.n.reqs]; exact List.mem_map.2 ⟨r, hr, rfl⟩
-          rcases List.mem_append.1 hmem with h2 | h2
-          · exact Seen_later op (ReqSeen_of_mem h2) hkey
-              (by rw [inv.tot]; simpa [reqOf] using (inv.n.remsPend r (List.mem_of_mem_take h1)).2.2)
-          · obtain ⟨nt, hnt, he⟩ := List.mem_filterMap.1 h2
-            cases nt with
-            | rem i => simp [Note.req?] at he
-            | add i =>
-              simp only [Note.req?, Option.some.injEq] at he
-              have : i = r := hinj i (inv.n.addsPend i hnt) r hr he
-              subst this
-              rw [hpend] at hnt
-              rcases List.mem_append.1 hnt with h3 | h3
-              · exact Seen_now op (by rw [hreqs]; exact List.mem_filterMap.2 ⟨Note.add i, h3, rfl⟩) hkey
-              · exact absurd h3 (Ordered_split _ _ (hpend ▸ inv.n.ordered) i h1)
-        · exact Or.inl h1
-      · exact Or.inr (Seen_snoc op h1)
-    · -- the extended history is valid
-      have hnd := hkeys
-      rw [← hreqsplit] at hnd
-      simp only [List.map_append] at hnd
-      obtain ⟨_, hnd2, hdis⟩ := List.nodup_append.1 hnd
-      obtain ⟨hnd3, _, _⟩ := List.nodup_append.1 hnd2
-      have hov : OpValid c.B c.L J.eops op := by
-        refine ⟨hnd3, ?_, ?_, ?_⟩
-        · intro r hr r' hr' he
-          exact hdis r'.key (List.mem_map.2 ⟨r', hr', rfl⟩) r.key
-            (List.mem_append_left _ (List.mem_map.2 ⟨r, hr, rfl⟩)) he
+    · -- the extended history is valid: the key discipline holds for every key
+      have hov : OpValidSeq c.B c.L J.eops op := by
+        refine ⟨?_, hvis, ?_⟩
         · intro r hr
           rw [hreqs] at hr
           obtain ⟨nt, _, he⟩ := List.mem_filterMap.1 hr
           cases nt with
           | rem i => simp [Note.req?] at he
           | add i => simp only [Note.req?, Option.some.injEq] at he; rw [← he]; rfl
-        · exact hvis
-      have := (allValid_append c.B c.L [] J.eops [op]).2 ⟨inv.n.valid, by simpa [AllValid] using hov⟩
+        · intro κ
+          rw [g.opn κ]
+          exact (hkey κ).1
+      have := (allValidSeq_append c.B c.L [] J.eops [op]).2 ⟨inv.n.valid, by simpa [AllValidSeq] using hov⟩
       exact this
+  · refine ⟨seen ++ J.pend.take vis, ?_, ?_, ?_, ?_, ?_, ?_, ?_⟩
+    · simp only [hissued]; exact g.adds
+    · simp only [allReqs_append, List.filterMap_append, g.seenReqs]
+      simp [allReqs, hreqs]
+    · simp only [hissued]; exact g.rems
+    · simp only [hissued]; exact g.alt
+    · simp only [hissued]; exact g.last
+    · intro κ
+      simp only
+      rw [openAfter_snoc, g.opn κ, inv.tot, onKey_append, altEnd_append, (hkey κ).2.1, hlen]
+    · intro κ
+      simp only
+      have h3 := (hkey κ).2.2
+      rw [hlen] at h3
+      rw [specReqs_snoc, List.filterMap_append, g.acc κ, g.opn κ, inv.tot, onKey_append, altEnd_append, ← h3]
+      cases keyEmit κ J.acq _ op <;> rfl
 
 end Psi.E2E
